@@ -22,7 +22,7 @@ pub const ENTRY: Entry = Entry {
            for exactly the instruction byte; transactions within the termination budget; Ok. Non-trivial = histories with >= 2 calls. Post-fault leg: (call a with its k-th DC/SPI operation \
            failing once, every k) ; RAMWR ; (every call b): b and the recovery command must again deliver exactly their own bytes; \
            and fill ; (stream starting with the fill colour | other stream | fill, k-th operation failing) ; RAMWR ; fill. \
-           Byte totals beyond 2^32: send_repeated_pixel on the transport, and fill_solid through the real Display + pixel-format layer on a 65535 x 65535 external model (Rgb565 and Rgb666, grey and non-grey), run to completion in counting mode.",
+           Long runs: 1100 calls cycling through the alphabet on one interface object, every call checked. Byte totals beyond 2^32: send_repeated_pixel on the transport, and fill_solid through the real Display + pixel-format layer on a 65535 x 65535 external model (Rgb565 and Rgb666, grey and non-grey), run to completion in counting mode.",
     assumptions: &["a failed or zero-length SPI write delivers nothing", "the buffer is the transport's only state, so depth 2-3 with adversarial previous content covers any history"],
     run,
 };
@@ -437,6 +437,45 @@ fn run(ctx: &Ctx) -> Part {
             acc
         })
         .reduce(Acc::new, Acc::merge);
+    // long runs on one interface object (explicit horizon 1100 calls cycling through the alphabet): state that only
+    // shows after many calls (a call counter, a buffer position that creeps) needs repetition, not breadth
+    let long: Vec<Acc> = [(2usize, 5usize), (3, 7), (2, 16), (3, 64)]
+        .par_iter()
+        .map(|&(n, l)| {
+            let mut acc = Acc::new();
+            let a0 = alphabet(n, l, 0);
+            let a1 = alphabet(n, l, 1);
+            let mut hist: Vec<TCall> = Vec::with_capacity(1100);
+            let mut i = 0usize;
+            while hist.len() < 1100 {
+                let src = if i % 2 == 0 { &a0 } else { &a1 };
+                let c = &src[(i * 7 + i / 2) % src.len()];
+                // a pixel call needs the data/command line high: the alphabet's commands leave it high
+                hist.push(c.clone());
+                i += 1;
+            }
+            acc.evaluations += 1;
+            acc.nontrivial += 1;
+            acc.transitions += hist.len() as u64;
+            acc.count("long_run_calls", hist.len() as u64);
+            let o = run_history(n, l, &hist);
+            if let Some((sig, msg)) = o.fail {
+                let upto = o.bytes.len().min(hist.len());
+                acc.violation(Violation {
+                    prop: ctx.prop.clone(),
+                    sig: format!("{sig}/long-run"),
+                    msg,
+                    case: json!({"kind": "c06", "variant": ctx.variant, "n": n, "len": l, "history": hist[..upto.max(1)]}),
+                });
+            }
+            acc
+        })
+        .collect();
+    let mut acc = acc;
+    for a in long {
+        acc = acc.merge(a);
+    }
+    let acc = acc;
     // extreme repeat counts: byte totals beyond 2^32, complete runs in counting mode
     let mut acc = acc;
     let extremes: Vec<(usize, u32, [u8; 3], usize)> = vec![
